@@ -10,6 +10,7 @@ from engine.model import src, stmt_key, dotted, walk_no_nested
 from engine.util import own_nodes, calls_with_nodes, where
 
 RULES = {
+    "R-19.8": "the root is collapsed whenever a delete left it without keys - whether or not the key was found: the descent merges children on the way down before it knows, so an unsuccessful delete can empty the root too (an internal root with 0 keys and 1 child breaks the occupancy bound and adds a level)",
     "R-19.7": "a clone is the same tree: in BTree.__init__ every structural attribute of the copy (t, root, size) is taken from the original's attribute of the same name, so node capacity and the nodes it governs stay consistent",
     "R-19.6": "cursor direction: next() records `increasing = True` (prev(): False) on every trip before it reads an element, whether or not it had to descend first - the flag decides the descent after the next internal key and the side a parked cursor re-seeks on",
     "R-19.1": "every in-place write to a B-tree node (elts/children) and every call of a node-mutating method has an OWNED receiver (self of a mutating method, result of maybe_cow_child/_get_node/clone/constructor); values read from X.children[...] are shared",
@@ -317,6 +318,15 @@ def run(model, rep, tier):
                           f"the clone's `{attr}` is `{src(st.value)}`, not `original.{attr}`: the copy shares the original's nodes but disagrees with them about {attr} "
                           "(e.g. a default t = 127 on top of nodes built for t = 3: nodes never split or overfill, lookups degrade and in-order insertion asserts)", stmt=f"clone-attr {attr}")
         rep.floor("R-19.7", n_cl, 3)
+    # ---------------------------------------------------------------- R-19.8
+    bd = model.func("dns.btree.BTree._delete")
+    cd8 = CFG(bd.node, implicit_exc=False)
+    tests8 = [n for n in cd8.nodes if n.kind == "test" and isinstance(n.ast, ast.If) and any(a[0] == "len(self.root.elts)" and a[1] == "==" and a[2] == "0" for a in atoms(normalise_compare(n.ast.test)))]
+    descents = [n.id for (n, c) in calls_with_nodes(cd8) if src(c.func) == "self.root.delete"]
+    okk = bool(tests8) and bool(descents) and cd8.dominated_by_set(cd8.exit.id, [t_.id for t_ in tests8]) and all(cd8.dominated_by_set(t_.id, descents) for t_ in tests8)
+    rep.check(okk, "R-19.8", bd.qualname, where(bd, tests8[0].ast if tests8 else bd.node), "the empty-root test follows the descent on every path",
+              "the `len(self.root.elts) == 0` collapse runs only on some paths after self.root.delete() (e.g. only when an element was removed): deleting an absent key can still merge the root's last two "
+              "children on the way down, leaving an internal root with 0 keys and 1 child", stmt="root-collapse")
     rep.meta["explanation"] = (
         "Ownership typestate for B-tree nodes: a fixpoint computes which _Node methods/parameters require an owned receiver (they write elts/children "
         "directly or transitively); every write and every such call in dns/btree.py is then checked with reaching definitions to have an owned receiver "
@@ -452,6 +462,9 @@ def _root_owned(cfg, at):
 
 
 WITNESSES = [
+    {"id": "c19-root-collapse-only-after-successful-delete", "rule": "R-19.8", "file": "dns/btree.py", "expect": "fires",
+     "old": "        if elt is not None:\n            # We deleted something\n            self.size -= 1\n        if len(self.root.elts) == 0:",
+     "new": "        if elt is not None:\n            # We deleted something\n            self.size -= 1\n        if elt is not None and len(self.root.elts) == 0:"},
     {"id": "c19-next-direction-flag-conditional", "rule": "R-19.6", "file": "dns/btree.py", "expect": "fires",
      "old": "                self.recurse = False\n            self.increasing = True\n", "new": "                self.recurse = False\n                self.increasing = True\n"},
     {"id": "c19-clone-takes-default-t", "rule": "R-19.7", "file": "dns/btree.py", "expect": "fires",
